@@ -285,6 +285,9 @@ func realWorkload(r *ev.Run) {
 		lcs[i] = ev.NewLocal()
 	}
 	ev.Parallel(n, func(wk, i int) {
+		if r.Violations() >= ev.MaxViolations {
+			return // enough witnesses; every further failing session would wait for the watchdog
+		}
 		c := randomReal(r.RNG("c13-real", i))
 		realSession(r, lcs[wk], wk, c)
 		r.Distinct(uint64(1)<<50 | uint64(i))
